@@ -311,6 +311,9 @@ def alphabet_small():
     ops.append({"op": "copy", "k": 0, "j": 1})
     ops.append({"op": "assignMol", "k": 0, "sp": "A", "m": "mA"})
     ops.append({"op": "setMolMap", "k": 0, "mapping": [["B", "mB"], ["C", "mC"]], "strict": False, "clear": True})
+    # label keys that are reaction ids, not species (seed C15-g): ignored / KeyError, never stored
+    ops.append({"op": "setMolMap", "k": 0, "mapping": [["r_1", "m1"], ["A", "mA2"]], "strict": False, "clear": False})
+    ops.append({"op": "assignMol", "k": 0, "sp": "r_1", "m": "m1"})
     ops.append({"op": "addFromStr", "k": 0, "reaction": "2A + B >> C | rule=R1", "rule": None, "suffix": True})
     ops.append({"op": "addFromStr", "k": 0, "reaction": "A>>B", "rule": "R1", "suffix": False})
     ops.append({"op": "parseRxns", "k": 0, "items": [["A>>B", None], ["B+C>>A | rule=R1", None]], "default_rule": "r",
@@ -497,7 +500,9 @@ def random_ops(rnd, length, nslots=3):
             j = rnd.choice([x for x in range(nslots) if x != k])
             ops.append({"op": "copy", "k": k, "j": j})
         elif c < 0.93:
-            sp = rnd.choice(SP)
+            # the label key is a species name, or (1 in 4) the id of a reaction: ids are not species, and
+            # `x in H` is true for both (seed C15-g)
+            sp = rnd.choice(SP) if rnd.random() < 0.75 else rnd.choice(IDS)
             ops.append({"op": "assignMol", "k": k, "sp": sp, "m": "m" + sp})
         elif c < 0.97:
             kind = rnd.random()
@@ -517,6 +522,8 @@ def random_ops(rnd, length, nslots=3):
                             "suffix": rnd.random() < 0.7, "prefer_suffix": rnd.random() < 0.4})
         else:
             mp = [[s, "M" + s] for s in SP if rnd.random() < 0.4]
+            mp += [[s, "M" + s] for s in IDS if rnd.random() < 0.15]      # keys that are reaction ids (seed C15-g)
+            rnd.shuffle(mp)
             ops.append({"op": "setMolMap", "k": k, "mapping": mp, "strict": rnd.random() < 0.5, "clear": rnd.random() < 0.5})
     return ops
 
